@@ -5,6 +5,7 @@ from fractions import Fraction
 import numpy as np
 from hypothesis import strategies as st
 
+from vf import gwl
 from vf.core import Obs
 from vf.lab import LETTERS, lab_spec, real_idx, wid
 from vf.prog import World, execute, expect_sequential, expect_transfer, flat_pairs, known_comp, model_apply, op_direct, op_distribute, op_transfer, resolve, trough_indices, vs_ok
@@ -16,8 +17,8 @@ RULE = (
     "of 1..12 operations: transfer (also within one labware and from a well into itself, splits, serial chains over "
     "several calls), distribute, dispense with a KNOWN composition (fractions k/n, new and existing component names), "
     "aspirate, zero-volume steps, wells emptied and refilled, and dispenses that are refused for overflow (the well must keep volume and composition). A transfer call in which a well is both source and "
-    "destination of different triples is reduced to its first triple (the mixing result would depend on the "
-    "implementation's sub-step order; such calls are C01's subject). Non-trivial = >= 2 mixing events and a well "
+    "destination of different triples is modelled in the order of its emitted A/D pairs (grid regime, exact record "
+    "volumes) or reduced to its first triple (float regime). Non-trivial = >= 2 mixing events and a well "
     "with >= 2 components at the end; distinct by canonical JSON."
 )
 ASSUMPTIONS = [
@@ -28,7 +29,7 @@ ASSUMPTIONS = [
 BUDGET = {"quick": (4, 300), "thorough": (16, 4000)}
 KNOWN_KINDS = {}
 STRATA = ["transfer", "distribute", "dispense", "mixed"]
-REQUIRED_CLASSES = ["op:transfer", "op:distribute", "op:dispense", "op:aspirate", "chain>=2", "same-labware", "emptied-and-refilled", "zero-volume-into-empty", "shared-names", "self-transfer", "refused-dispense"]
+REQUIRED_CLASSES = ["op:transfer", "op:distribute", "op:dispense", "op:aspirate", "chain>=2", "same-labware", "emptied-and-refilled", "zero-volume-into-empty", "shared-names", "self-transfer", "refused-dispense", "dependent-transfer-by-records", "column-chain-in-one-call"]
 
 
 ENUM_SPACE = "naming rule at construction: plates 1..16 rows x 1..24 columns and Troughs 1..8 virtual rows x 1..24 columns, all wells filled / checkerboard filled, default names and partial explicit names"
@@ -81,8 +82,8 @@ def _case(draw, focus, tier="quick"):
         )
     vs = st.one_of(vs_ok(q), st.fixed_dictionaries({"f": st.sampled_from([1.0, 0.5, 0.25])}))
     # "chain": draw the liquid from a well that was fed earlier; "refill": deliver into a well that was emptied earlier
-    t = st.tuples(op_transfer(vs, max_n=4), st.one_of(st.none(), st.integers(0, 20)), st.one_of(st.none(), st.integers(0, 20))).map(
-        lambda x: dict(x[0], chain=x[1], refill=x[2])
+    t = st.tuples(op_transfer(vs, max_n=4), st.one_of(st.none(), st.integers(0, 20)), st.one_of(st.none(), st.integers(0, 20)), st.one_of(st.none(), st.none(), st.integers(0, 20))).map(
+        lambda x: dict(x[0], chain=x[1], refill=x[2], colchain=x[3])
     )
     d = op_distribute(vs, max_n=4)
     dc = op_direct(vs, kinds=("dispense",), comps=True, max_n=4).map(lambda o: dict(o, comps=o["comps"] or 1))
@@ -176,6 +177,18 @@ def check_case(case) -> Obs:
             op["cap"] = case["M"]
         if kind == "transfer":
             op["cap"] = 10 * case["M"]
+            plates_ = [i_ for i_, sp in enumerate(specs) if sp["kind"] == "plate" and sp["rows"] >= 2]
+            if op.get("colchain") is not None and plates_:
+                # a serial dilution down one column within ONE call: every well but the first is destination, then source
+                i_ = plates_[op["colchain"] % len(plates_)]
+                R_, c_ = specs[i_]["rows"], op["colchain"] % specs[i_]["cols"]
+                k_ = min(R_ - 1, 3)
+                op["src"] = op["dst"] = i_
+                op["sw"] = {"t": "list", "w": [[r_, c_] for r_ in range(k_)]}
+                op["dw"] = {"t": "list", "w": [[r_ + 1, c_] for r_ in range(k_)]}
+                op["vols"] = {"t": "scalar", "v": {"f": 0.3}}
+                op["chain"] = op["refill"] = None
+                obs.cls("column-chain-in-one-call")
             if op.get("chain") is not None and fed:
                 i_, idx_ = sorted(fed)[op["chain"] % len(fed)]
                 op["src"], op["sw"] = i_, {"t": "scalar", "w": [idx_[0], idx_[1]]}
@@ -189,7 +202,9 @@ def check_case(case) -> Obs:
             pairs = flat_pairs(world, conc)
             srcs = {(p[0], p[1]) for p in pairs if p[3] < 0}
             dsts = {(p[0], p[1]) for p in pairs if p[3] > 0}
-            if len(conc["pairs"]) > 1 and srcs & dsts:
+            dependent = len(conc["pairs"]) > 1 and bool(srcs & dsts)
+            follow_records = dependent and bool(q)  # grid regime: record volumes are exact
+            if dependent and not follow_records:
                 s, d = conc["pairs"][0]
                 v = conc["flatvols"][0]
                 conc = dict(conc, sw={"t": "scalar", "ids": s}, dw={"t": "scalar", "ids": d}, pairs=[[s, d]], flatvols=[v], vols={"t": "scalar", "v": v})
@@ -197,6 +212,8 @@ def check_case(case) -> Obs:
             if expect_transfer(world, conc) != "accept":
                 obs.cls("skipped")
                 continue
+            if follow_records:
+                obs.cls("dependent-transfer-by-records")
         elif op.get("refused"):
             if expect_sequential(world, flat_pairs(world, conc))[0] != "refuse-over":
                 continue
@@ -251,7 +268,29 @@ def check_case(case) -> Obs:
                     fed[(conc["dst"], di)] = max(fed.get((conc["dst"], di), 0), depth)
                     if depth >= 2:
                         obs.cls("chain>=2")
-        model_apply(world, conc)
+        if kind == "transfer" and follow_records:
+            # a well is source and destination of different triples: the mixture depends on the order of the
+            # sub-steps, which is the order of the emitted A/D pairs (what the robot executes)
+            racks = {sp["name"]: gwl.Rack.from_spec(sp) for sp in specs}
+            recs = [r_ for r_ in world.wl[step.rec0 : step.rec1] if r_[:2] in ("A;", "D;")]
+            ok = len(recs) % 2 == 0
+            for a_, d_ in zip(recs[0::2], recs[1::2]):
+                fa, fd = a_.split(";"), d_.split(";")
+                if fa[0] != "A" or fd[0] != "D" or fa[6] != fd[6] or fa[1] not in racks or fd[1] not in racks:
+                    ok = False
+                    break
+                sidx, _ = racks[fa[1]].well_of_position(int(fa[4]), case["device"])
+                didx, _ = racks[fd[1]].well_of_position(int(fd[4]), case["device"])
+                si = [i_ for i_, sp in enumerate(specs) if sp["name"] == fa[1]][0]
+                di = [i_ for i_, sp in enumerate(specs) if sp["name"] == fd[1]][0]
+                vol = Fraction(fa[6])
+                taken = world.models[si].remove(sidx, vol)
+                world.models[di].add(didx, vol, taken)
+            if not ok:
+                obs.bad("C05/records-unpaired", f"op {k} transfer: A/D records do not pair up: {recs[:4]}")
+                break
+        else:
+            model_apply(world, conc)
         if kind in ("transfer", "distribute") or (kind == "dispense" and conc.get("comps")):
             mixes += sum(1 for p in pairs if p[3] > 0 and p[2] > 0)
         for i, lw in enumerate(world.labs):
